@@ -2011,6 +2011,7 @@ public:
                 {
                     syntax_error(ps);
                     enter_recovery_mode(ps);
+                    continue;
                 }
                 if (!pop_stacks(ps))
                     break;
